@@ -95,8 +95,8 @@ def reasons(d):
                 out.add('NameNeedsEscape')
         if t['alias'] is not None and not name_ok(t['alias']):
             out.add('NameNeedsEscape')
-        if t['alias'] is not None and t['alias'] in bare_names:
-            out.add('AliasShadow')
+        if t['alias'] is not None and any(u is not t and u['name'] == t['alias'] for u in d['tables']):
+            out.add('AliasShadow')      # shadows ANOTHER table's bare name (its own bare name is harmless)
         if not t['columns']:
             out.add('NoColumns')
         if t.get('abstract'):
